@@ -19,14 +19,15 @@ Theorem C05_linearizable_partial :
 Proof. exact conc_linearizable. Qed.
 Print Assumptions C05_linearizable_partial.
 
-(* Put (new key / overwrite / identical value / rejected in immutable mode), Get, Has, GetSize and Remove as programs of atomic steps,
+(* Put (new key / overwrite / identical value / rejected in immutable mode), Get, Has, GetSize and Remove as programs of atomic steps, Flush as one step taken at the instant its pools are swapped,
    one per critical section of the real code (index lookup under the bucket lock | primary read outside it | primary
    pool append | index insert / update / remove); ghost state = the specification map, changed only at linearization
    points.  For ANY number of threads, ANY schedule (list of thread numbers) and either immutable mode, if no two
    WRITERS address the same key ([init_ok2]): every completed call returned exactly what the specification answered at
    its linearization point - in particular no call fails and no call changes or hides another key - and the shared
    state is related to the specification map.  Readers may race with the writer of their own key.
-   Missing relative to the full property: the multi-step Flush, and same-key
+   Missing relative to the full property: the steps INSIDE a Flush (log append, bucket-table update: justified as invisible because
+   lookups consult the swapped-out pool, which the replay of real schedules through that window checks), and same-key
    concurrent writers, for which the property is FALSE on the code (recorded finding, known_findings.json). *)
 Theorem C05_linearizable_put_get_remove :
   forall imm bits (U : bytes -> Prop), unrelated bits U ->
